@@ -24,7 +24,7 @@ func init() {
 		Rule: "one run = N searches pipelined on one connection (N in {2,8,64}; up to 512 in thorough); each handler first joins a barrier that opens only when all N handlers have entered " +
 			"(simultaneity is proven, not assumed), then writes K entries with unique ids (h=<message id>,j=<seq>) whose payload is a function of (h,j,len), len cycling through {3,100,5000,70000} " +
 			"(below/above the 4096-byte write buffer), then SearchDone; every Write result is logged. Runs cover plain / TLS-listener / StartTLS-upgraded transports x eager / back-pressure reading x GOMAXPROCS {1,2,4,16}, " +
-			"under the race detector; plus thousands of small bursts (2..4 writers, then silence) on one long-lived connection, where every frame of a burst must arrive before the client sends anything else; and runs in which the server is stopped while handlers are writing and the client keeps pipelining (gldap's own shutdown notice shares the stream); runs against a server with a write timeout in which a frame larger than every socket buffer is written to a client that reads again only after a Write has failed, followed by a further request; victim connections that reset in the middle of a response before and between the writer rounds; connections that stay in use after one to three Writes panicked while encoding (recovered); single frames whose encoded size sweeps the neighbourhood of the write buffer size, each followed by silence; pipelines that end with an Unbind so that the server closes while the slow client still has most frames to read; and pipelines with a StartTLS request behind the searches, which the server answers from the read loop while the handlers write. Oracle: strict incremental parse; multiset of ids == set of successful writes; per-writer order; payload check. " +
+			"under the race detector; plus thousands of small bursts (2..4 writers, then silence) on one long-lived connection, where every frame of a burst must arrive before the client sends anything else; and runs in which the server is stopped while handlers are writing and the client keeps pipelining (gldap's own shutdown notice shares the stream); runs against a server with a write timeout in which a frame larger than every socket buffer is written to a client that reads again only after a Write has failed, followed by a further request; victim connections that reset in the middle of a response before and between the writer rounds; connections that stay in use after one to three Writes panicked while encoding (recovered); single frames whose encoded size sweeps the neighbourhood of the write buffer size, each followed by silence; pipelines that end with an Unbind so that the server closes while the slow client still has most frames to read; and pipelines with a StartTLS request behind the searches, which the server answers from the read loop while the handlers write; and handlers that panic (recovered) while another handler of their connection is blocked in Write. Oracle: strict incremental parse; multiset of ids == set of successful writes; per-writer order; payload check. " +
 			"distinct_nontrivial = distinct cross-writer interleaving signatures (order of writer ids in the received stream) with at least one cross-writer switch",
 		Assume: []string{"the client-side parser (internal/sber) is strict and independent of asn1-ber"},
 		Phases: func(tier string, seed int64) []Phase {
@@ -33,12 +33,17 @@ func init() {
 			if tier == "thorough" {
 				procs = []string{"16", "4", "2", "1"}
 			}
+			if tier != "thorough" {
+				// a single P in the quick tier as well, with a slice of the workload (concurrent writers with and without
+				// back-pressure): on one P goroutines still interleave whenever one of them blocks in the network
+				ps = append(ps, Phase{Name: "writers-p1-light", Race: true, Run: c05Run, Env: map[string]string{"GOMAXPROCS": "1", "C05_LIGHT": "1"}})
+			}
 			for _, p := range procs {
 				ps = append(ps, Phase{Name: "writers-p" + p, Race: true, Run: c05Run, Env: map[string]string{"GOMAXPROCS": p}})
 			}
 			return ps
 		},
-		MinObserved: []string{"frames_checked", "cross_writer_switches", "barrier_openings", "bursts_fully_answered_without_further_traffic", "stops_during_concurrent_writes", "write_timeout_runs", "victim_connections_reset_mid_response", "connections_used_after_a_panic_inside_write", "single_frames_around_the_write_buffer_size", "runs_in_which_the_server_closes_before_the_client_has_read_everything", "runs_with_a_starttls_request_answered_among_the_writers"},
+		MinObserved: []string{"frames_checked", "cross_writer_switches", "barrier_openings", "bursts_fully_answered_without_further_traffic", "stops_during_concurrent_writes", "write_timeout_runs", "victim_connections_reset_mid_response", "connections_used_after_a_panic_inside_write", "single_frames_around_the_write_buffer_size", "runs_in_which_the_server_closes_before_the_client_has_read_everything", "runs_with_a_starttls_request_answered_among_the_writers", "panics_next_to_a_writer_blocked_in_write"},
 	})
 }
 
@@ -919,11 +924,134 @@ func c05PanicInWrite(c *Ctx, r *Rand, round int) {
 	}
 }
 
+// c05PanicNextToBlockedWriter: one handler streams 3KB entries to a client that is not reading and is therefore
+// blocked inside Write; another handler of the same connection panics (recovered by gldap). Whatever the recovery does,
+// it does not touch the stream: once the client reads, it finds every frame the streaming handler was told it had
+// written, once, in order, whole.
+func c05PanicNextToBlockedWriter(c *Ctx, r *Rand, round int) {
+	var mu sync.Mutex
+	okJ := map[int]bool{}
+	var writes atomic.Int64
+	total := 1500 + r.Intn(1000)
+	done := make(chan struct{})
+	srv, err := startSrv(SrvCfg{}, func(m *gldap.Mux) {
+		m.Search(func(w *gldap.ResponseWriter, req *gldap.Request) {
+			defer close(done)
+			for j := 0; j < total; j++ {
+				e := req.NewSearchResponseEntry(fmt.Sprintf("h=1,j=%d", j))
+				e.AddAttribute("p", []string{string(c05Payload(1, j, 3000))})
+				err := w.Write(e)
+				writes.Add(1)
+				if err != nil {
+					return
+				}
+				mu.Lock()
+				okJ[j] = true
+				mu.Unlock()
+			}
+			w.Write(req.NewSearchDoneResponse(gldap.WithResponseCode(0)))
+		})
+		m.Delete(func(w *gldap.ResponseWriter, req *gldap.Request) {
+			panic("injected panic next to a blocked writer (C05)")
+		})
+	})
+	if err != nil {
+		c.Inconclusive("server start: " + err.Error())
+		return
+	}
+	defer srv.StopWithin(patience)
+	cn, err := net.Dial("tcp", srv.Addr)
+	if err != nil {
+		c.Inconclusive("dial: " + err.Error())
+		return
+	}
+	defer cn.Close()
+	cn.Write(sber.Message(1, sber.Search{Base: []byte("dc=x"), Scope: 2, Filter: sber.PresentFilter("cn"), Attrs: [][]byte{}}.Node(), nil).Encode())
+	// wait until the writer makes no progress any more (socket buffers full)
+	last, still := int64(-1), 0
+	for dl := time.Now().Add(10 * time.Second); time.Now().Before(dl) && still < 5; time.Sleep(20 * time.Millisecond) {
+		if w := writes.Load(); w == last && w > 0 {
+			still++
+		} else {
+			last, still = w, 0
+		}
+	}
+	blocked := still >= 5
+	for k := 0; k < 1+round%3; k++ {
+		cn.Write(sber.Message(int64(2+k), sber.DelRequest([]byte("cn=x")), nil).Encode())
+	}
+	time.Sleep(50 * time.Millisecond)
+	br := bufio.NewReaderSize(cn, 64<<10)
+	next := 0
+	var streamErr error
+	for {
+		cn.SetReadDeadline(time.Now().Add(5 * time.Second))
+		f, err := sber.ReadFrame(br)
+		if err != nil {
+			streamErr = err
+			break
+		}
+		m, perr := sber.ParseMessage(f)
+		if perr != nil {
+			streamErr = perr
+			break
+		}
+		c.Count("frames_checked", 1)
+		if m.ID != 1 {
+			continue // (a response to a delete, should the recovery send one)
+		}
+		if m.Op.Tag == sber.AppSearchResultDone {
+			break
+		}
+		e, eerr := sber.AsEntry(m.Op)
+		var eh, ej int
+		if eerr != nil {
+			streamErr = eerr
+			break
+		}
+		if _, serr := fmt.Sscanf(string(e.DN), "h=%d,j=%d", &eh, &ej); serr != nil || ej != next || len(e.Attrs) != 1 || string(e.Attrs[0].Vals[0]) != string(c05Payload(1, ej, 3000)) {
+			streamErr = fmt.Errorf("frame %q arrived where j=%d was due (or its payload is not its own)", e.DN, next)
+			break
+		}
+		next++
+	}
+	select {
+	case <-done:
+	case <-time.After(5 * time.Second):
+	}
+	mu.Lock()
+	defer mu.Unlock()
+	det := map[string]any{"round": round, "writer_was_blocked": blocked, "frames_reported_written": len(okJ), "frames_received_in_order": next, "stream_end": fmt.Sprint(streamErr)}
+	if streamErr != nil && !isTimeout(streamErr) {
+		c.Violate("byte stream is not a concatenation of whole LDAPMessages", fmt.Sprintf("a handler panicked (recovered) while another handler of the connection was blocked in Write: %v", streamErr), det)
+	} else if next < len(okJ) {
+		c.Violate("frame lost although its Write returned nil", fmt.Sprintf("a handler panicked (recovered) while another handler of the connection was blocked in Write: %d frames reported written, %d received", len(okJ), next), det)
+	}
+	if blocked {
+		c.Count("panics_next_to_a_writer_blocked_in_write", 1)
+	}
+}
+
 func c05Run(c *Ctx) {
 	pki := newPKI()
 	r := c.Rng
+	if os.Getenv("C05_LIGHT") != "" {
+		for _, slow := range []bool{true, false} {
+			for _, n := range []int{2, 8} {
+				c05One(c, pki, c05Cfg{N: n, K: 6, Transport: "plain", Slow: slow}, r.Sub(fmt.Sprintf("light/%v/%d", slow, n)))
+				c05One(c, pki, c05Cfg{N: n, K: 6, Transport: "plain", Slow: slow, ExtraStartTLS: true}, r.Sub(fmt.Sprintf("light/ext/%v/%d", slow, n)))
+			}
+		}
+		c05One(c, pki, c05Cfg{N: 8, K: 6, Transport: "tls", Slow: true, Unbind: true}, r.Sub("light/tls"))
+		c05PanicNextToBlockedWriter(c, r.Sub("light/pnw"), 0)
+		c.Count("runs_on_a_single_p", 1)
+		return
+	}
 	for i := 0; i < c.N(2, 30); i++ {
 		c05WriteTimeout(c, r.Sub(fmt.Sprintf("wt%d", i)), i)
+	}
+	for i := 0; i < c.N(3, 30); i++ {
+		c05PanicNextToBlockedWriter(c, r.Sub(fmt.Sprintf("pnw%d", i)), i)
 	}
 	for i := 0; i < c.N(6, 60); i++ {
 		c05PanicInWrite(c, r.Sub(fmt.Sprintf("piw%d", i)), i)
